@@ -1,5 +1,5 @@
 (* C18 — Deck and published combination tables are complete and duplicate-free. *)
-From CKC Require Import Base.Prelude Base.Reflect Base.Combs Spec.Layout Model.Deck Proofs.C18.
+From CKC Require Import Base.Prelude Base.Reflect Base.Combs Spec.Layout Model.Deck Proofs.C18 Proofs.SlotOrder.
 From CKC Require Import Gen.Consts Gen.Decks.
 Open Scope N_scope.
 
@@ -29,6 +29,13 @@ Theorem C18_slot_tables :
   table_ok SEVEN_PERMUTATIONS SPEC_5_OF_7 21 /\ Forall (fun r => strictly_increasing r = true) SEVEN_PERMUTATIONS.
 Proof. exact slot_tables_ok. Qed.
 
+(* "in increasing order" also of the rows: each table is the lexicographic enumeration itself *)
+Theorem C18_slot_tables_order :
+  OMAHA_PERMUTATIONS = SPEC_2_OF_4 /\ SIX_PERMUTATIONS = SPEC_5_OF_6 /\ SEVEN_PERMUTATIONS = SPEC_5_OF_7 /\
+  rows_increasing OMAHA_PERMUTATIONS = true /\ rows_increasing SIX_PERMUTATIONS = true /\
+  rows_increasing SEVEN_PERMUTATIONS = true.
+Proof. exact slot_tables_lex. Qed.
+
 Example C18_example :
   In [268471337; 134253349] SPEC_AKs /\ In [0; 1; 2; 3; 6] SPEC_5_OF_7 /\ length SPEC_5_OF_7 = 21%nat.
 Proof. repeat split; vm_compute; tauto. Qed.
@@ -38,3 +45,4 @@ Print Assumptions C18_get.
 Print Assumptions C18_get_past_end.
 Print Assumptions C18_presets.
 Print Assumptions C18_slot_tables.
+Print Assumptions C18_slot_tables_order.
